@@ -389,8 +389,13 @@ impl Lowerer {
                 let lit = RelationLiteral {
                     columns: columns
                         .iter()
-                        .map(|c| c.as_single().unwrap().clone().unwrap())
-                        .collect_vec(),
+                        .map(|c| {
+                            c.as_single().unwrap().clone().ok_or_else(|| {
+                                Error::new_simple("every column of a relation literal needs a name")
+                                    .with_span(expr.span)
+                            })
+                        })
+                        .try_collect()?,
                     rows: elements
                         .into_iter()
                         .map(|row| {
